@@ -43,8 +43,15 @@ static void vf_pool_free(void *p)
 {
     (void) p;
 }
+static void *vf_pool_realloc(void *p, size_t n)
+{
+    /* growing is never needed at these sizes; a call is reported */
+    __CPROVER_assert(0, "VF:c13.model.no_reallocation_at_these_sizes");
+    return NULL;
+}
 #  define malloc vf_pool_malloc
 #  define free vf_pool_free
+#  define realloc vf_pool_realloc
 # endif
 #endif
 #include "crypto/math/pstm.c"
